@@ -332,6 +332,20 @@ func runCase(run *ev.Run, st *stats, fam string, idx int, k kase) {
 		run.Violation("nondeterministic:"+what+":"+m.LastOp.String(), id, fmt.Sprintf("two runs of the same script differ in %s", what), w)
 		return
 	}
+	r3 := runReused(k.script, idx)
+	st.add("vm_runs_on_a_reused_vm", 1)
+	if r3.pan != "" || r1.class != r3.class || r1.canon != r3.canon || r1.gas != r3.gas {
+		w := wit()
+		w["vm_reused_run"] = map[string]any{"state": r3.class, "stack": r3.canon, "gas": r3.gas, "error": r3.err, "panic": r3.pan, "ran_before": vmspec.Disasm(polluters[idx%len(polluters)])}
+		what := "stack"
+		if r3.pan != "" || r1.class != r3.class {
+			what = "state"
+		} else if r1.gas != r3.gas {
+			what = "gas"
+		}
+		run.Violation("nondeterministic-on-a-reused-vm:"+what+":"+m.LastOp.String(), id, fmt.Sprintf("the script run on a VM reset after another script differs in %s from its run on a fresh VM", what), w)
+		return
+	}
 	specClass := m.State.String()
 	specCanon := ""
 	if m.State == vmspec.Halt {
